@@ -525,14 +525,10 @@ struct Machine
 
     const std::string & op = st.op;
     if (op == "assign" || op == "massign") {
+      // reference: DISTINCT value objects holding the pre-call coefficients (value semantics knows no aliasing)
       G va = value_from(P + st.d.p), vb = value_from(P + st.s.p);
-      if (st.d.p == st.s.p) {
-        if (op == "assign") va = va;
-        else va = std::move(va);
-      } else {
-        if (op == "assign") va = vb;
-        else va = std::move(vb);
-      }
+      if (op == "assign") va = vb;
+      else va = std::move(vb);
       ref = cells_of(va);
       guard_on(ok);
       if (op == "assign") {
@@ -558,13 +554,29 @@ struct Machine
       with_src(st.s, [&](auto & s) { new (mem + st.d.p) G(s); });
       guard_off();
     } else if (op == "mul") {
+      // a *= b ; when both name the same region (x *= x, or two views over one region) the reference still uses
+      // two distinct value objects with the pre-call coefficients
       G va = value_from(P + st.d.p);
       const G vb = value_from(P + st.s.p);
-      if (st.d.p == st.s.p) va *= va;
-      else va *= vb;
+      va *= vb;
       ref = cells_of(va);
       guard_on(ok);
       with_dst(st.d, [&](auto & d) { with_src(st.s, [&](auto & s) { d *= s; }); });
+      guard_off();
+    } else if (op == "amul" || op == "bmul") {
+      // a = a * b  /  a = b * a
+      G va = value_from(P + st.d.p);
+      const G vb = value_from(P + st.s.p);
+      if (op == "amul") va = va * vb;
+      else va = vb * va;
+      ref = cells_of(va);
+      guard_on(ok);
+      with_dst(st.d, [&](auto & d) {
+        with_src(st.s, [&](auto & s) {
+          if (op == "amul") d = d * s;
+          else d = s * d;
+        });
+      });
       guard_off();
     } else if (op == "plus") {
       G va = value_from(P + st.d.p);
@@ -596,8 +608,7 @@ struct Machine
       guard_off();
     } else if (op == "const2") {
       const G vb = value_from(P + st.s.p), vo = value_from(P + st.o.p);
-      if (st.s.p == st.o.p) observe2(vb, vb, vres);
-      else observe2(vb, vo, vres);
+      observe2(vb, vo, vres);
       guard_on(ok);
       with_src(st.s, [&](auto & s) { with_src(st.o, [&](auto & o) { observe2(s, o, res); }); });
       guard_off();
@@ -633,7 +644,6 @@ struct Machine
           // reference: the same statement on value objects
           {
             const G vb = st.s.k != NONE ? value_from(P + st.s.p) : value_from(P + st.d.p);
-            const bool same = st.s.k != NONE && st.s.p == st.d.p;
             auto dsv = PT<G>::template get<Ix>(va, alt);
             if (op == "subsetid") {
               if constexpr (LieView<DSV>) dsv.setIdentity();
@@ -641,9 +651,8 @@ struct Machine
             } else if (op == "subassign" && st.x == "fresh") {
               dsv = fr;
             } else {
-              // source part of a distinct object, or of the same object
-              const G & srcobj = same ? static_cast<const G &>(va) : vb;
-              auto ssv         = PT<G>::template get<Ix>(srcobj, alt);
+              // source part of a DISTINCT value object holding the pre-call coefficients (also when both name one region)
+              auto ssv = PT<G>::template get<Ix>(vb, alt);
               if (op == "subassign") dsv = ssv;
               else if constexpr (LieView<DSV>) dsv *= ssv;
               else dsv += ssv;
